@@ -244,6 +244,16 @@ class Gen:
       self.classes.add("ws-varied")
     else:
       s = " ".join(toks)
+    arrow = getattr(self, "_lead_arrow", 0)
+    if arrow == 1:
+      # second half of a "-->" that straddles two text nodes
+      self._lead_arrow = 0
+      return AbsEl("Text", text=rng.choice([">", "->"]) + s.lstrip(" \t\n"))
+    if self.p.get("arrow") and rng.random() < 0.12:
+      self._lead_arrow = 1
+      self.classes.add("arrow-across-text-nodes")
+      self.classes.add("arrow-in-text")
+      return AbsEl("Text", text=s.rstrip(" \t\n") + "--")
     lead = getattr(self, "_lead_space", 0)
     if lead == 2:
       s = s.rstrip(" \t\n")
